@@ -495,6 +495,161 @@ theorem reuse_off_untouched {α : Type} (docs : List (List α)) (s : St α) (w :
   rw [earlier_results_clobbered_iff_reuse false docs s w x hx]
   simp
 
+/-! ## Reading the maps AFTER the call (Reuse on) -/
+
+/-- the contents of the pooled maps, by pool position -/
+def view {α : Type} (s : St α) : List (Option α) := s.pool.map s.heap
+
+/-- what one document does to the pool contents: its objects take the first positions -/
+def stepV {α : Type} (v : List (Option α)) (d : List α) : List (Option α) := d.map some ++ v.drop d.length
+
+/-- the values of a call's documents read after the call, as a function of the input and of the
+pool contents at entry -/
+def afterSpec {α : Type} : List (List α) → List (Option α) → List (List (Option α))
+  | [], _ => []
+  | d :: ds, v => (ds.foldl stepV (stepV v d)).take d.length :: afterSpec ds (stepV v d)
+
+theorem openAll_reuse_len {α : Type} (d : List α) (s : St α) (w : WF s) :
+    (openAll true d s).2.pool.length = max s.pool.length (s.mi + d.length) := by
+  induction d generalizing s with
+  | nil => have := w.mi_le; simp only [openAll, openAllW, List.length_nil]; omega
+  | cons a as ih =>
+    obtain ⟨w1, m1, _, _⟩ := openObj_reuse_spec a s w
+    have h := ih (openObj true a s).2 w1
+    simp only [openAll, openAllW] at h ⊢
+    rw [h, m1, List.length_cons]
+    have hl : (openObj true a s).2.pool.length = max s.pool.length (s.mi + 1) := by
+      have := w.mi_le
+      by_cases hh : s.mi < s.pool.length
+      · simp only [openObj, if_true, dif_pos hh]; omega
+      · simp only [openObj, if_true, dif_neg hh, List.length_append, List.length_singleton]; omega
+    rw [hl]; omega
+
+theorem Ext_runDocs {α : Type} (reuse : Bool) (docs : List (List α)) {s : St α} (w : WF s) :
+    Ext s (runDocs reuse docs s).2 := by
+  induction docs generalizing s with
+  | nil => exact Ext.refl s
+  | cons d ds ih => exact (Ext_runDoc reuse d w).trans (ih (WF_runDoc reuse d w))
+
+/-- one document with Reuse: its objects' contents take the first positions of the pool, the rest of
+the pool is as before -/
+theorem runDoc_view {α : Type} (d : List α) (s : St α) (w : WF s) (hm : s.mi = 0) :
+    view (runDoc true d s).2 = stepV (view s) d ∧
+    (runDoc true d s).1.ids = (runDoc true d s).2.pool.take d.length ∧
+    d.length ≤ (runDoc true d s).2.pool.length := by
+  obtain ⟨w2, _, e, g⟩ := openAll_reuse_spec d s w
+  have hl := openAll_reuse_len d s w
+  have hn := distinct_within_doc true d s w
+  have hv := openAll_values true d s (by simpa [runDoc, runDocW] using hn)
+  have hf := openAll_frame true d s
+  simp only [runDoc, runDocW, docEnd, view, stepV, openAll] at *
+  generalize (openAllW (openObj true) d s).2 = s' at *
+  generalize (openAllW (openObj true) d s).1 = ids at *
+  rw [hm, List.drop_zero] at g
+  rw [hm, Nat.zero_add] at hl
+  obtain ⟨extra, hp, _⟩ := e.pool
+  have hdrop : s'.pool.drop d.length = s.pool.drop d.length := by
+    rcases Nat.lt_or_ge s.pool.length d.length with h | h
+    · rw [List.drop_eq_nil_of_le (by omega), List.drop_eq_nil_of_le (by omega)]
+    · have : extra = [] := by
+        have hh : s'.pool.length = s.pool.length + extra.length := by rw [hp, List.length_append]
+        exact List.eq_nil_of_length_eq_zero (by omega)
+      rw [hp, this, List.append_nil]
+  refine ⟨?_, g, by omega⟩
+  have hsplit : s'.pool = ids ++ s.pool.drop d.length := by
+    rw [g, ← hdrop, List.take_append_drop]
+  have hnd := w2.nodup
+  rw [hsplit, List.nodup_append] at hnd
+  rw [hsplit, List.map_append, hv]
+  congr 1
+  rw [← List.map_drop]
+  apply List.map_congr_left
+  intro x hx
+  apply hf
+  intro hmem
+  exact hnd.2.2 x hmem x hx rfl
+
+theorem agree_step {α : Type} (k : Nat) (v v' : List (Option α)) (d : List α)
+    (h : d.length < k → v.take k = v'.take k) : (stepV v d).take k = (stepV v' d).take k := by
+  simp only [stepV, List.take_append, List.length_map]
+  congr 1
+  rcases Nat.lt_or_ge d.length k with hk | hk
+  · rw [List.take_drop, List.take_drop]
+    have : d.length + (k - d.length) = k := by omega
+    rw [this, h hk]
+  · have : k - d.length = 0 := by omega
+    rw [this, List.take_zero, List.take_zero]
+
+theorem agree_fold {α : Type} (k : Nat) (ds : List (List α)) (v v' : List (Option α))
+    (h : v.take k = v'.take k) : (ds.foldl stepV v).take k = (ds.foldl stepV v').take k := by
+  induction ds generalizing v v' with
+  | nil => exact h
+  | cons d ds ih => exact ih _ _ (agree_step k v v' d (fun _ => h))
+
+/-- the entry contents of the pool do not matter -/
+theorem afterSpec_indep {α : Type} (docs : List (List α)) (v v' : List (Option α)) :
+    afterSpec docs v = afterSpec docs v' := by
+  induction docs generalizing v v' with
+  | nil => rfl
+  | cons d ds ih =>
+    simp only [afterSpec]
+    rw [ih (stepV v d) (stepV v' d)]
+    congr 1
+    apply agree_fold
+    apply agree_step
+    intro h
+    exact absurd h (Nat.lt_irrefl _)
+
+
+theorem runDocs_after {α : Type} (docs : List (List α)) (s : St α) (w : WF s) (hm : s.mi = 0) :
+    view (runDocs true docs s).2 = docs.foldl stepV (view s) ∧
+    valuesAfter (runDocs true docs s).1 (runDocs true docs s).2 = afterSpec docs (view s) := by
+  induction docs generalizing s with
+  | nil => exact ⟨rfl, rfl⟩
+  | cons d ds ih =>
+    obtain ⟨hv, hids, hlen⟩ := runDoc_view d s w hm
+    have w1 := WF_runDoc true d w
+    obtain ⟨ihv, iha⟩ := ih (runDoc true d s).2 w1 (runDoc_mi true d s)
+    obtain ⟨extra, hp, _⟩ := (Ext_runDocs true ds w1).pool
+    rw [hv] at ihv iha
+    refine ⟨ihv, ?_⟩
+    show ((runDoc true d s).1.ids.map (runDocs true ds (runDoc true d s).2).2.heap) ::
+        valuesAfter (runDocs true ds (runDoc true d s).2).1 (runDocs true ds (runDoc true d s).2).2
+      = (ds.foldl stepV (stepV (view s) d)).take d.length :: afterSpec ds (stepV (view s) d)
+    rw [iha, ← ihv, hids]
+    congr 1
+    simp only [view]
+    rw [← List.map_take, hp, List.take_append_of_le_length hlen]
+
+/-- (b, read after the call) **With Reuse, what the maps a call returned hold after the call is the
+same function of the input on a used parser as on a new one** — later documents of the same call
+overwrite earlier ones in both alike -/
+theorem reuse_values_after_eq_fresh {α : Type} (docs : List (List α)) (s : St α) (w : WF s) :
+    valuesAfter (runCall true docs s).1 (runCall true docs s).2
+      = valuesAfter (runCall true docs (St.init : St α)).1 (runCall true docs (St.init : St α)).2 := by
+  have h1 := (runDocs_after docs (entry s) (WF_entry w) rfl).2
+  have h2 := (runDocs_after docs (entry (St.init : St α)) (WF_entry WF_init) rfl).2
+  simp only [runCall, runCallW, runDocs] at h1 h2 ⊢
+  rw [h1, h2]
+  exact afterSpec_indep docs _ _
+
+theorem afterSpec_last {α : Type} (docs : List (List α)) (d : List α) (v : List (Option α)) :
+    (afterSpec (docs ++ [d]) v).getLast? = some (d.map some) := by
+  induction docs generalizing v with
+  | nil => simp [afterSpec, stepV]
+  | cons d' ds ih =>
+    simp only [List.cons_append, afterSpec, List.getLast?_cons, ih (stepV v d')]
+    rfl
+
+/-- … and for the LAST document of a call (what `Parse` returns) that is the document itself -/
+theorem last_doc_after {α : Type} (docs : List (List α)) (d : List α) (s : St α) (w : WF s) :
+    (valuesAfter (runCall true (docs ++ [d]) s).1 (runCall true (docs ++ [d]) s).2).getLast?
+      = some (d.map some) := by
+  have h1 := (runDocs_after (docs ++ [d]) (entry s) (WF_entry w) rfl).2
+  simp only [runCall, runCallW, runDocs] at h1 ⊢
+  rw [h1]
+  exact afterSpec_last docs d _
+
 /-! ## Histories -/
 
 inductive Op (α : Type) where
@@ -591,6 +746,10 @@ example : values (runCall true [[20, 21], [30, 31, 32, 33]] used).1
 /-- after the call the first document's maps show the second document (documented for Reuse) -/
 example : valuesAfter (runCall true [[20, 21], [30, 31, 32, 33]] used).1
       (runCall true [[20, 21], [30, 31, 32, 33]] used).2
+    = [[some 30, some 31], [some 30, some 31, some 32, some 33]] := by decide
+/-- … exactly what a new parser's maps show after the same call -/
+example : valuesAfter (runCall true [[20, 21], [30, 31, 32, 33]] (St.init : St Nat)).1
+      (runCall true [[20, 21], [30, 31, 32, 33]] (St.init : St Nat)).2
     = [[some 30, some 31], [some 30, some 31, some 32, some 33]] := by decide
 /-- Reuse off on the used parser: new maps only -/
 example : (runCall false [[20, 21]] used).1.map DocRes.ids = [[3, 4]] := by decide
